@@ -74,7 +74,8 @@ def cases(tier, seed):
     # a record json.dumps refuses (int beyond the int -> str digit limit): the caller skips it and carries on with that type
     JB = dict(rs("j/big", [["varint", "n"], ["string", "s"]], ["10**5000", "'refused'"]), xfail=True)
     JO = rs("j/big", [["varint", "n"], ["string", "s"]], ["5", "'fine'"])
-    shapes = {"A": A, "A2": A2, "B": B, "N1": N1, "N2": N2, "N3": N3, "JB": JB, "JO": JO}
+    EMPTY = rs("j/empty", [], [], _source="'only-metadata'")  # a record type without fields of its own
+    shapes = {"A": A, "A2": A2, "B": B, "N1": N1, "N2": N2, "N3": N3, "JB": JB, "JO": JO, "EMPTY": EMPTY}
     for k in ((1, 2, 3, 4) if tier == "thorough" else (1, 2, 3)):
         for seq in itertools.product(shapes, repeat=k):
             yield {"kind": "seq", "t": "seq", "shape": list(seq), "records": [shapes[s] for s in seq]}
